@@ -7,7 +7,7 @@
 id=$1; wt=$2; out=$3; tier=${4:-quick}; shift 4 2>/dev/null
 extra="$@"
 vc=/tmp/vseed-$id
-rsync -a --delete --exclude replays --exclude .git /verif/ $vc/; rc=$?; [ $rc -eq 0 -o $rc -eq 24 ] || exit 2
+rsync -a --delete --exclude replays --exclude .git ${VSRC:-/verif}/ $vc/; rc=$?; [ $rc -eq 0 -o $rc -eq 24 ] || exit 2
 clean() { git -C $wt checkout -- . && git -C $wt clean -fdxq; }
 for m in $out/m*; do
   [ -f $m/patch.diff ] || continue
